@@ -54,7 +54,7 @@ func init() {
 		technique: "call-graph confinement (VTA) of handler invocations behind the turn gate + CFG must-precede on the Scheduled→Processing CAS + who-may-write of the dispatch state",
 		explanation: "Decides structural necessary conditions of single-threaded handler execution: (1) every invocation site of a user handler (Behavior value, Actor.Receive, Grain.OnReceive) is reachable only through PID.runTurn / grainPID.runTurn, and in both turn loops only after a successful TakeForProcessing CAS; (2) the dispatch state word is written only by its own methods, its transitions follow a fixed table (CAS Idle→Scheduled, CAS Scheduled→Processing, Store(Scheduled) only in YieldToScheduled, Store(Idle) only in reset: a worker becomes the owner only by winning the CAS from Scheduled), and TakeForProcessing / YieldToScheduled / reset are called only from the turn loops, finishOrReclaim and the restart path; (3) a reset outside finishOrReclaim is not preceded, after the quiescence wait, by an event that re-enables intake (init / running state); (4) runTurn is invoked only by worker.run, once per take; (5) the PID and grain turn loops agree. It does not decide race freedom of the CAS machine over interleavings.",
 		assumptions: []string{"race-freedom of the three-state CAS machine under all interleavings", "re-entrancy through user code", "VTA call graph over-approximates dynamic dispatch (sound for never-reachable)"},
-		minObl:     18,
+		minObl:     32,
 		run:        runC01,
 	})
 }
